@@ -358,6 +358,10 @@ public:
     } else if constexpr ( extents_type::rank() == 1 ) {
       return exts.extent(0);
     } else {
+      // an empty index space needs no storage, whatever the padded stride is
+      for (rank_type r = 0; r < extents_type::rank(); ++r) {
+        if (exts.extent(r) == 0) return 0;
+      }
       index_type value = padded_stride.value(0);
       for (rank_type r = 1; r < extents_type::rank(); ++r) {
         value *= exts.extent(r);
@@ -687,6 +691,10 @@ public:
     } else if constexpr ( extents_type::rank() == 1 ) {
       return exts.extent(0);
     } else {
+      // an empty index space needs no storage, whatever the padded stride is
+      for (rank_type r = 0; r < extents_type::rank(); ++r) {
+        if (exts.extent(r) == 0) return 0;
+      }
       index_type value = 1;
       for (rank_type r = 0; r < extent_to_pad_idx; ++r)
       {
